@@ -57,6 +57,15 @@ class FuncInfo:
     def loc(self):
         return "%s:%d" % (self.module.relpath, self.node.lineno)
 
+    @property
+    def is_static(self):
+        """@staticmethod: called through an instance or the class, no receiver parameter"""
+        return self.cls is not None and any(isinstance(d, ast.Name) and d.id == "staticmethod" for d in self.node.decorator_list)
+
+    @property
+    def has_self(self):
+        return self.cls is not None and not self.is_static and bool(self.node.args.args)
+
     def __repr__(self):
         return "<func %s>" % self.qualname
 
